@@ -32,6 +32,18 @@ CHECKS = {
         note="Reads C[Any] as the empty container (MonkeyType's convention); trusts witnesses()/member().",
         ref="DESIGN.md section 4 C07",
     ),
+    "C08": dict(
+        technique="explicit enumeration of all inferred / rewritten / grammar types and fixture call traces through the real encoder and decoder (bounded exhaustive, E1)",
+        text="Every distinct inferred type (all k), every rewritten form, the type grammar and hidden-builtin look-alikes are encoded, decoded and re-encoded; CallTraces over every fixture function kind with return/yield absent, NoneType or a type are round-tripped; compared structurally, never with ==.",
+        note="Trusts struct(); union member order is normalised in JSON comparisons (typing caches make it history dependent).",
+        ref="DESIGN.md section 4 C08",
+    ),
+    "C11": dict(
+        technique="explicit enumeration of type builders x class pairs/triples from a module-name-collision fixture package x targets, rendered stubs evaluated in their own namespace (bounded exhaustive translation validation, E1)",
+        text="Every builder (containers, Optional/Union, Type, Callable, Iterator/Generator, TypedDicts at every container position) over every ordered pair of 14 classes from modules whose names are suffixes of one another is rendered through the real ModuleStub; the import block is executed and every annotation evaluated with only the stub's names, then compared structurally with the rendered type.",
+        note="Trusts stubeval/ast; classes with the same short name in two modules are outside the alphabet.",
+        ref="DESIGN.md section 4 C11",
+    ),
 }
 
 NOT_YET = {}
